@@ -27,7 +27,8 @@ func TestMain(m *testing.M) { stats.Main(m, "C13") }
 const ruleW = "rapid: format tables of 0-3 entries from {json,text,custom,\"\"} with generated values (empty allowed) x configured Format {unset,json,text,custom,missing} x harness writer {ok, fails, short write with nil error, short write with error} x 1-16 concurrent Process calls, for writer.Sink and FileSink (temp dir, /dev/null, /dev/stdout, /dev/stderr, un-creatable directory); oracle = byte stream received by the harness writer / file contents: success => exactly the configured format's bytes, once and contiguous (in however many Write calls), never overlapping another Process call's write; missing format or failing/short writer => error; non-trivial = >=2 formats in the table with a non-default sink format, or >=4 concurrent writers; distinct = case descriptor"
 const ruleC = "rapid: ChannelSink with capacity 0/1, pre-filled or not, a drainer receiving after never/0/5/60ms, timeout 1-40ms or 10s, context cancelled before/after 1-40ms/never or carrying its own deadline, or a detached context (parent deadline, never done), Process under a watchdog, plus constructor arguments; oracle = nil <=> the identical *Event pointer was received exactly once, error => never received, error not before min(timeout, cancel) and not later than it + 2s; non-trivial = timeout and context deadline both finite and different, or delivery racing a deadline; distinct = case descriptor"
 
-var formatNames = []string{eventlogger.JSONFormat, "text", "custom", ""}
+// format names are exact strings: the pool holds names that are equal only after trimming or case folding
+var formatNames = []string{eventlogger.JSONFormat, "text", "custom", "", eventlogger.JSONFormat, "text", "JSON", "text ", " ", "\tcustom", "Text"}
 
 type hw struct {
 	mode    int // 0 ok, 1 fails, 2 short nil, 3 short err
@@ -98,7 +99,7 @@ func effFormat(cfg string) string {
 func TestC13WriterSink(t *testing.T) {
 	sec := stats.Sec("writer_sink", ruleW)
 	rapid.Check(t, func(t *rapid.T) {
-		cfgFmt := rapid.SampledFrom([]string{"", "", eventlogger.JSONFormat, "text", "custom", "missing", "JSON", "Text", "CUSTOM"}).Draw(t, "sinkFormat")
+		cfgFmt := rapid.SampledFrom([]string{"", "", eventlogger.JSONFormat, "text", "custom", "missing", "JSON", "Text", "CUSTOM", " ", "text ", "\tcustom", " json", "json\n"}).Draw(t, "sinkFormat")
 		mode := rapid.SampledFrom([]int{0, 0, 0, 0, 1, 2, 3}).Draw(t, "writerMode")
 		nconc := rapid.SampledFrom([]int{1, 1, 2, 4, 8, 16}).Draw(t, "concurrency")
 		w := &hw{mode: mode, slow: nconc > 1}
@@ -268,7 +269,7 @@ func TestC13FileSink(t *testing.T) {
 	caseNo := 0
 	rapid.Check(t, func(t *rapid.T) {
 		caseNo++
-		cfgFmt := rapid.SampledFrom([]string{"", "", eventlogger.JSONFormat, "text", "custom", "missing", "JSON", "Text", "CUSTOM"}).Draw(t, "sinkFormat")
+		cfgFmt := rapid.SampledFrom([]string{"", "", eventlogger.JSONFormat, "text", "custom", "missing", "JSON", "Text", "CUSTOM", " ", "text ", "\tcustom", " json", "json\n"}).Draw(t, "sinkFormat")
 		kind := rapid.SampledFrom([]string{"dir", "dir", "dir", "devnull", "stdout", "stderr", "uncreatable", "devfull", "stdout-closed"}).Draw(t, "path")
 		if _, err := os.Stat("/dev/full"); err != nil && kind == "devfull" {
 			kind = "uncreatable"
